@@ -59,3 +59,41 @@ func ruleLookupsAudited(p *Prog, r *Report, rule, prop string, floor int) {
 	}
 	r.floor(rule, "functions with audited lookups", len(names), floor)
 }
+
+// R18.9: in panos.processVsysPairs the callback is called for the vsys pairs first and
+// for the vsys that exist only on the second side (first argument nil) afterwards.
+// The merge callback creates the missing vsys in the first configuration; a pairing
+// loop that runs after that walks the new vsys too and merges it a second time.
+func rulePairsBeforeCreation(p *Prog, r *Report, rule string) {
+	r.rule(rule, "PAN-OS vsys pairing: in processVsysPairs every call of the callback with a nil first argument (a vsys that exists only on the second side; the merge callback creates it in the first configuration) comes after the loop over the first configuration's vsys — no call with a nil first argument can be followed by a call with a vsys of the first configuration. Otherwise the vsys just created is walked as well and merged twice (rules doubled, [APPEND] marks lost).")
+	fn := p.Fn("panos.processVsysPairs")
+	if fn == nil {
+		r.fail(rule, "anchor|panos.processVsysPairs", "", "not found", "")
+		return
+	}
+	var creating, pairing []ssa.Instruction
+	for _, cs := range callsOf(fn) {
+		par, ok := cs.In.Common().Value.(*ssa.Parameter)
+		if !ok || len(cs.In.Common().Args) < 1 {
+			continue
+		}
+		_ = par
+		if c, ok := cs.In.Common().Args[0].(*ssa.Const); ok && c.IsNil() {
+			creating = append(creating, cs.In)
+		} else {
+			pairing = append(pairing, cs.In)
+		}
+	}
+	ok := len(creating) > 0 && len(pairing) > 0
+	bad := ""
+	for _, c := range creating {
+		for _, q := range pairing {
+			if ireach(c, q) {
+				ok = false
+				bad = p.ipos(c) + " -> " + p.ipos(q)
+			}
+		}
+	}
+	r.add(rule, "pairs-before-creation|panos.processVsysPairs", p.pos(fn.Pos()), fmt.Sprintf("%d pairing call(s) of the callback, then %d creating call(s)", len(pairing), len(creating)), ok,
+		"a creating call of the callback can be followed by a pairing call ("+bad+"): the vsys it creates is paired and merged again")
+}
